@@ -34,7 +34,7 @@ var badValues = []string{"", " lead", "\tlead", "x\ny", "\n"}
 var badFileKeys = []string{"Key", "aB", "a b", "É", "1", "", "a:b", ".file", "a b", "a\nb"}
 var badInternalKeys = []string{"Unit ns/op a=b", "a\nBenchmarkX 1 1 ns/op", "BenchmarkX 1 1 ns/op"}
 
-var names = []string{"X", "Foo/a=1-8", "", "é", "\xff\xfe", "Unit", "X:", "a=b", "X​", "Sub/x:y/z=1", "-"}
+var names = []string{"X", "Foo/a=1-8", "", "é", "\xff\xfe", "Unit", "X:", "a=b", "X\u200b", "Sub/x:y/z=1", "-"}
 var badNames = []string{"X Y", "X ", "\tX", "X\n"}
 var units = []string{"ns/op", "MB/s", "B/op", "allocs/op", "widgets", "x/ns", "ns/ns", "sec/op", "é/op", "MB", "ns", "x-ns/op", "B/s", "="}
 var badUnits = []string{"", "a b", "x "}
@@ -505,7 +505,7 @@ func runFilter(query string, names []string, contents [][]byte, paths []string) 
 	})
 }
 
-var queries = []string{"*", "*", ".unit:ns/op", ".unit:(ns/op OR B/op)", "-.name:X", "a:1 OR b:*", "-.unit:MB/s", ".file:fa"}
+var queries = []string{"*", "*", ".unit:ns/op", ".unit:(ns/op OR B/op)", "-.name:X", "a:1 OR b:v2", "-.unit:MB/s", ".file:fa"}
 
 func genFilter(r *hx.Rand) {
 	nf := 1 + r.Intn(3)
